@@ -2,5 +2,6 @@
 @include u1_semtype.vs
 @include u2_vfile.vs
 @include prelude_rec.rs
+@include u3_piece.vs
 @include u4_val.vs
 @include u6_htx.vs
